@@ -35,7 +35,7 @@ fn live_values_text(vs: &VStore, root: &str) -> Vec<((u64, u32), bool, Vec<u16>)
 }
 
 #[derive(Clone)]
-struct Sticky { bytes: Vec<u8>, v2: bool, json: Option<String>, root: &'static str, anchor: Option<(u64, u32)>, after: bool, created_at: u64, index: u32 }
+struct Sticky { bytes: Vec<u8>, v2: bool, json: Option<String>, root: &'static str, anchor: Option<(u64, u32)>, after: bool, created_at: u64, index: u32, anchor_val: Option<String> }
 #[derive(Clone)]
 struct Quote { key: String, root: &'static str, start: Option<((u64, u32), bool)>, end: Option<((u64, u32), bool)>, range: String, empty_when_made: bool }
 
@@ -135,7 +135,10 @@ fn run_case(seed: u64, index: u64, rep: &mut Report, want: &[&str], md: &mut Mod
             if got_anchor != anchor { fails.push(json!({"property": "C14", "class": "sticky-anchor-is-not-the-neighbour", "expected": format!("{:?}", anchor), "got": format!("{:?}", got_anchor), "index": idx, "after": after, "root": root})); }
             let v2 = r.chance(1, 3);
             let jsons = if r.chance(1, 3) { serde_json::to_string(&st).ok() } else { None };
-            stickies.push(Sticky { bytes: if v2 { st.encode_v2() } else { st.encode_v1() }, v2, json: jsons, root, anchor: got_anchor, after, created_at: step, index: idx });
+            // the value of the anchoring array element, when it is unique in the array: wherever that value is later (the element itself, or
+            // the copy an undo made of it), the index belongs next to it - an oracle that does not read the implementation's `redone` pointers
+            let anchor_val = if root == ROOT_ARRAY { let vals: Vec<String> = aref.iter(&txn).map(|o| print_out(&o, &txn, 0)).collect(); let pos = if after { Some(idx as usize) } else if idx > 0 { Some(idx as usize - 1) } else { None }; pos.and_then(|p| vals.get(p).cloned()).filter(|v| vals.iter().filter(|x| *x == v).count() == 1) } else { None };
+            stickies.push(Sticky { bytes: if v2 { st.encode_v2() } else { st.encode_v1() }, v2, json: jsons, root, anchor: got_anchor, after, created_at: step, index: idx, anchor_val });
             script.push(format!("r{} sticky#{} {}@{} {}", i, stickies.len() - 1, root, idx, if after { "After" } else { "Before" }));
             rep.count("stickies_created");
         } else {
@@ -190,6 +193,14 @@ fn run_case(seed: u64, index: u64, rep: &mut Report, want: &[&str], md: &mut Mod
                 rep.add("sticky_resolutions", 1);
                 let want_off = expected_offset(&units, follow_redone(&vs, s.root, s.anchor), s.after);
                 let got = st.get_offset(&txn).map(|o| o.index);
+                // (only where the copies are known to be copies: the replica with the undo manager; elsewhere a re-created element is a
+                //  new element and the index stays where the deleted anchor was)
+                if let (Some(v), true) = (&s.anchor_val, ri == 0) {
+                    let vals: Vec<String> = arr.iter(&txn).map(|o| print_out(&o, &txn, 0)).collect();
+                    let at: Vec<usize> = vals.iter().enumerate().filter(|(_, x)| *x == v).map(|(i, _)| i).collect();
+                    if at.len() == 1 { rep.add("sticky_resolutions_checked_by_value", 1); let want = if s.after { at[0] as u32 } else { at[0] as u32 + 1 };
+                        if got != Some(want) { fails.push(json!({"property": "C14", "class": "sticky-does-not-stay-next-to-its-element", "sticky": si, "replica": ri, "step": step, "expected": want, "got": got, "element": v, "after": s.after, "created_at_step": s.created_at, "created_at_index": s.index})); } }
+                }
                 if got != want_off {
                     fails.push(json!({"property": "C14", "class": if s.anchor.map_or(false, |(c, k)| units.iter().any(|u| u.0 == c && u.1 == k && !u.2)) { "sticky-with-deleted-anchor-resolves-elsewhere" } else { "sticky-resolves-elsewhere" },
                         "sticky": si, "replica": ri, "step": step, "expected": want_off, "got": got, "anchor": format!("{:?}", s.anchor), "after": s.after, "root": s.root, "created_at_step": s.created_at, "created_at_index": s.index,
